@@ -78,7 +78,8 @@ PROPERTIES = {
                 harnesses=[
                     dict(func="VerifC03Routes", reach=["C03/route", "C03/default-path-region"],
                          quick=dict(budget=400, parts=4), thorough=dict(budget=1500, parts=8)),
-                    dict(func="VerifC03Placement", reach=["C03/placement/decided", "C03/placement/kf-body-verb"], quick=dict(budget=200), thorough=dict(budget=600)),
+                    dict(func="VerifC03TSPathSegments", reach=["C03/ts-segments/decided"], quick=dict(budget=100), thorough=dict(budget=300)),
+                           dict(func="VerifC03Placement", reach=["C03/placement/decided", "C03/placement/kf-body-verb"], quick=dict(budget=200), thorough=dict(budget=600)),
                 ],
                 bounds_text={
                     "quick": "placement: one RPC with a path variable, a (renamed or not) query-annotated field of 4 kinds and a body field, 6 verbs, all five generators' emitted parameter handling compared. routes: 1 service x 1 method; 9 base-path shapes x (no config | 11 path shapes incl. 0..3 variables, adjacent/first/last) x 4 method-name shapes x verb = any int32; path/base segments symbolic over [a-z_]{1..3}",
